@@ -31,8 +31,9 @@ TRUSTED = [
     "by dots",
     "Python re semantics of _sourceless_rev_file, _only_source_rev_file and _split_on_space_comma on strings without "
     "newline (file names) resp. as modelled by split_legacy; str.split / str.strip white space = ASCII+Latin-1 set",
-    "os.pathsep == ':' (POSIX); the harness chdir()s into the tree root and gives relative version_locations, the model's "
-    "paths are relative to that directory",
+    "os.pathsep == ':' (POSIX); the harness chdir()s into the tree root and gives relative version_locations or absolute ones "
+    "written '/R/...' where '/R' is replaced by the absolute path of the tree root (a mkdtemp name without space, comma, "
+    "colon, semicolon, newline); the model's paths are relative to that directory",
     "file content is abstracted to 'importable module defining revision = id' / 'not importable'; modules without a "
     "`revision` attribute (legacy file-name ids) are not modelled",
 ]
@@ -46,7 +47,7 @@ ASSUME = [
 ]
 RULE = ("quick: (a) EXHAUSTIVE: every subset of 8 entries {a.py,a.pyc,a.pyo,__pycache__/a.cpython-312.pyc,a.txt,__init__.py,"
         ".#a.py,sub/b.py} in sd/versions x sourceless x recursive (subsets in a finding class are skipped unless the finding "
-        "is recorded in known_findings.json); (b) EXHAUSTIVE: 40 version_locations strings x 7 version_path_separator values "
+        "is recorded in known_findings.json); (b) EXHAUSTIVE: 47 version_locations strings (relative and absolute, directory names containing ':') x 7 version_path_separator values "
         "on a fixed 3-location tree; (c) seeded random trees (2500 quick / 40000 thorough; 1-3 locations, nested, "
         "overlapping, repeated, symlinked locations and files, __pycache__, duplicate ids, junk content) x all separators x "
         "recursive x sourceless, 40% of them configured through a real alembic.ini file. "
@@ -243,12 +244,15 @@ def exhaustive_single_dir():
 LOC_STRINGS = ["v1", "v1 v2", "v1,v2", "v1, v2", "v1:v2", "v1;v2", "v1\nv2", "v1  v2", "v1 ,v2", "v1 , v2", " v1", "v1 ",
                "v1::v2", "v1: v2 ", "v1:v2:", ":v1", "v1;;v2", "v1\n\nv2", "v1\n v2", "v1 v2 v3", "v1/sub v2", "v1/./sub",
                "v1/sub/..", "v1//sub", "v1/sub/", "./v1", "v1 v1", "lnk v1", "lnk/sub", "nope v1", "v1/a1.py", ",", ":", " ",
-               "", "v1,v2,v3", "sd/versions", "v1/sub:v1", "v1 : v2", "v3/__pycache__"]
+               "", "v1,v2,v3", "sd/versions", "v1/sub:v1", "v1 : v2", "v3/__pycache__", "/R/v:1", "/R/v:1 v2", "/R/v1,/R/v:1",
+               "/R/v1:/R/v2", "v1/_squashed", "v1/sub/.staging", "/R/v1/./sub"]
 
 
 def loc_tree():
     return [D("sd", [D("versions", [F("s0.py", 0)])]),
-            D("v1", [F("a1.py", 1), F("a2.py", 2), F("notes.txt", 20), D("sub", [F("a3.py", 3)])]),
+            D("v1", [F("a1.py", 1), F("a2.py", 2), F("notes.txt", 20), D("sub", [F("a3.py", 3), D(".staging", [F("q2.py", 8)])]),
+                     D("_squashed", [F("q1.py", 7)])]),
+            D("v:1", [F("q3.py", 9)]),
             D("v2", [F("b1.py", 4), F("__init__.py", 21)]),
             D("v3", [F("c1.py", 5), D("__pycache__", [F("c2.cpython-312.pyc", 6)])]),
             L("lnk", ["v1"])]
@@ -258,8 +262,8 @@ def exhaustive_loc_strings():
     for s in LOC_STRINGS:
         for sep in SEPS:
             for rec in (False, True):
-                if ":" in s and sep not in ("os", ":"):
-                    continue                      # "pkg:dir" is a package resource: outside the model
+                if any(":" in it and not it.startswith("/R/") for it in split_items(sep, s) or []):
+                    continue                      # a relative "pkg:dir" is a package resource: outside the model
                 yield repair(case(sep, s, rec, False, loc_tree()))
 
 
@@ -305,7 +309,7 @@ def rand_dir_entries(rnd, depth, allow_cache=True):
         add(D("__pycache__", ces))
     if depth > 0:
         for _ in range(rnd.choice([0, 0, 1, 1, 2])):
-            nm = rnd.choice(["sub", "sub2", "x__pycache__", "pkg"])
+            nm = rnd.choice(["sub", "sub2", "x__pycache__", "pkg", "_squashed", ".staging", "_x", "rel:2024"])
             add(D(nm, rand_dir_entries(rnd, depth - 1)))
     return es
 
@@ -328,6 +332,8 @@ def rand_case(rnd):
         tree.append(D(t, rand_dir_entries(rnd, 2)))
     if rnd.random() < 0.5:
         tree.append(F(rnd.choice(["setup.py", "a.py", "b.py"]), rnd.randint(1, 6)))
+    if rnd.random() < 0.3:
+        tree.append(D("v:1", rand_dir_entries(rnd, 1)))
     # symbolic links: to directories at top level / inside directories, to files inside directories
     dirs = real_paths(tree, "d")
     files = real_paths(tree, "f")
@@ -350,7 +356,7 @@ def rand_case(rnd):
     # locations
     cands = [["v1"], ["v2"], ["v3"], ["v1", "sub"], ["v2", "sub"], ["sd", "versions"], ["lnk"], ["lnk2"], ["lnk", "sub"],
              ["nope"], ["v1", "sub", ".."], ["v1", ".", "sub"], ["v1", "pkg"], ["v1", "x__pycache__"], ["v1", "__pycache__"],
-             ["l__pycache__"]]
+             ["l__pycache__"], ["v1", "_squashed"], ["v1", ".staging"], ["v2", "_x"], ["v:1"], ["v:1", "sub"], ["v1", "rel:2024"]]
     dirs_now = real_paths(tree, "d")
     mode = rnd.random()
     if mode < 0.15:
@@ -358,7 +364,14 @@ def rand_case(rnd):
     else:
         k = rnd.choice([1, 1, 2, 2, 3])
         pool = [c for c in cands if rnd.random() < 0.8] + [d for d in dirs_now if rnd.random() < 0.3]
-        locs_items = ["/".join(rnd.choice(pool or cands)) for _ in range(k)]
+        locs_items = []
+        for _ in range(k):
+            it = "/".join(rnd.choice(pool or cands))
+            # a relative name containing ":" is a package resource (outside the model): such directories are given
+            # absolutely, "/R" standing for the root of the tree; separators that split at ":" tear them apart by design
+            if ":" in it or rnd.random() < 0.2:
+                it = "/R/" + it
+            locs_items.append(it)
         if rnd.random() < 0.15:
             locs_items.append(locs_items[0])
     sep = rnd.choice(SEPS[:-1]) if rnd.random() < 0.97 else "bad"
@@ -413,7 +426,8 @@ CACHE_PATTERNS = ["%s.cpython-312.pyc", "%s.cpython-311.pyc", "%s.cpython-312.op
                   "%s.txt", "%s.x.cpython-312.pyc"]
 OTHER_NAMES = ["sd", "versions", "v1", "v2", "v3", "sub", "sub2", "pkg", "__pycache__", "x__pycache__", "lnk", "lnk2",
                "l__pycache__", "lnk.py", "l2.txt", "zz.py", "s0.py", "a1.py", "a2.py", "a3.py", "b1.py", "c1.py", "notes.txt",
-               "c2.cpython-312.pyc", "x.txt", "x.py.bak", "x.cpython-312.pyc", "x.pyo", "setup.py"]
+               "c2.cpython-312.pyc", "x.txt", "x.py.bak", "x.cpython-312.pyc", "x.pyo", "setup.py", "_squashed", ".staging", "_x",
+               "v:1", "rel:2024", "q1.py", "q2.py", "q3.py"]
 
 
 def _name_pool():
@@ -520,7 +534,7 @@ def run_case(h):
         os.chdir(root)
         opts = {"script_location": "sd"}
         if h["locs"] is not None:
-            opts["version_locations"] = h["locs"]
+            opts["version_locations"] = h["locs"].replace("/R/", root + "/")
         if h["sep"] != "none":
             opts["version_path_separator"] = "comma" if h["sep"] == "bad" else h["sep"]
         if h["rec"]:
